@@ -17,14 +17,22 @@ LEVEL_NOTE = ('Trusted: Lean kernel, py2lean subset semantics, NumPy slicing/bro
 TECHNIQUE = 'Lean 4 proof (omega/induction) over translator-regenerated index kernel + hand model with differential correspondence'
 GEN = ['Extent', 'FieldIdx']
 OPS = ['C06']
-RULE = ('cases: extent pairs, field products (array/array, scalar/array, scalar/scalar), merges, reduces of 1..6 fields, '
-        'inserts into targets 1..8 with offsets in [-9,9] incl. wholly outside; data = small Gaussian integers; '
-        'distinct = canonical (kind, shapes, offsets) signature; non-trivial = extents overlap partially / clipping on '
-        'some side / more than one group, i.e. not the all-inside-or-identity case')
+RULE = ('cases: extent pairs, bounding boxes (boundary) of 1..5 fields incl. wholly negative, field products (array/array, '
+        'scalar/array, scalar/scalar), merges, reduces of 1..6 fields, inserts into targets 1..8 drawn by category (inside / '
+        'clipped on the top, bottom, left or right side / corner or two-sided clipping / wholly outside on each side / uniform '
+        'offsets in [-9,9]); data = small Gaussian integers; thorough adds two exhaustive enumerations: every insert with field '
+        'shape <= 3x3, offset in [-4,4]^2, target <= 4x4 (11 664 cases), and every extent pair a = shape <= 5x5 at the origin '
+        '(plus four shifted copies), b = shape <= 5x5 at offset in [-6,6]^2; corpus: the D20 witnesses (fields wholly outside) '
+        'run first. distinct = canonical (kind, shapes, offsets) signature; non-trivial = extents overlap partially / clipping '
+        'on some side / more than one group, i.e. not the all-inside-or-identity case')
 TRUSTED = ['NumPy slicing/broadcasting semantics for data[slice] * data[slice] and out[slice] += data (modelled by hand in Model/Field.lean)']
 UNPROVEN = []
 ASSUMPTIONS = ['merge/reduce are stated for collections whose bounding box is not the single origin pixel (NumPy raises there); '
-               'the product of two one-element fields follows the documented rule: empty unless the offsets are equal']
+               'the product of two one-element fields follows the documented rule: empty unless the offsets are equal',
+               'reduce_disjoint / reduce_total: input fields of positive shape and every element of the model result is a field '
+               '(no merged group has the single origin pixel as its box); the fields of a merged group occupy boundary() of the '
+               'group, which reaches up to row/column 0 even for wholly negative members (boundary_is_bbox_general states this '
+               'caveat; boundary_is_bbox is the exact bounding box when some member reaches row >= 0 and column >= 0)']
 
 def _field(rng, kmax=5, omax=6, allow_one=True, zero_d=False):
     shape = pick_shape(rng, kmax, allow_one)
@@ -34,17 +42,25 @@ def _field(rng, kmax=5, omax=6, allow_one=True, zero_d=False):
     return gi_field(rng, shape, off)
 
 def generate(rng, tier):
-    n = {'quick': 500, 'thorough': 20000, 'search': 3000}[tier]
+    n = {'quick': 2000, 'thorough': 20000, 'search': 3000}[tier]
     out = []
     for k in range(n):
         t = k % 10
-        if t == 0:
+        if t == 0 and k % 20 == 10:
+            m = int(rng.integers(1, 6))
+            fs = [_field(rng, omax=int(rng.integers(2, 9))) for _ in range(m)]
+            neg = int(rng.integers(0, 8)) % 6        # wholly negative rows and/or columns: boundary's rmax/cmax start at 0
+            for f in fs:
+                if neg & 1: f['off'][0] = -abs(f['off'][0]) - 4
+                if neg & 2: f['off'][1] = -abs(f['off'][1]) - 4
+            out.append({'kind': 'boundary', 'fields': fs})
+        elif t == 0:
             a, b = _field(rng), _field(rng)
             out.append({'kind': 'extent', 'a': list(ext_of(a['shape'], a['off'])), 'b': list(ext_of(b['shape'], b['off'])),
                         'sa': a['shape'], 'oa': a['off']})
         elif t in (1, 2, 3):
             a = _field(rng, zero_d=True); b = _field(rng, zero_d=True)
-            if t == 3 and rng.integers(0, 2):   # force partial overlap
+            if t in (2, 3) and rng.integers(0, 4):   # force (mostly partial) overlap
                 b['off'] = [a['off'][0] + int(rng.integers(-2, 3)), a['off'][1] + int(rng.integers(-2, 3))]
             out.append({'kind': 'mul', 'a': a, 'b': b})
         elif t in (4, 5):
@@ -59,32 +75,104 @@ def generate(rng, tier):
                 for f in fs: f['off'] = [-abs(f['off'][0]) - 4, -abs(f['off'][1]) - 4]
             out.append({'kind': 'reduce', 'fields': fs})
         else:
-            f = _field(rng, kmax=6, omax=9, allow_one=True)
-            if f['shape'] == [1, 1] and rng.integers(0, 2): f['shape'] = [1, 1]
-            tshape = (int(rng.integers(1, 9)), int(rng.integers(1, 9)))
-            if rng.integers(0, 6) == 0: tshape = tuple(f['shape']) if len(f['shape']) == 2 else tshape
-            o = gi_field(rng, tshape, (0, 0))
-            out.append({'kind': 'insert', 'field': f, 'out': o, 'weight': int(rng.integers(-2, 4)), 'intensity': bool(rng.integers(0, 2))})
+            out.append(_insert_case(rng))
     if tier == 'thorough':
-        out += exhaustive_extents()
+        out += exhaustive_extents() + exhaustive_inserts()
+    return out
+
+_SIDES = ('top', 'bottom', 'left', 'right')
+
+def _axis_pos(rng, n, t0, t1, how):
+    """first coordinate (rmin or cmin) of a length-n interval relative to the target interval [t0,t1]:
+    how = 'in' (inside; n <= t1-t0+1), 'lo' (sticks out below t0 but overlaps; n >= 2), 'hi' (sticks out above t1 but
+    overlaps; n >= 2), 'any' (overlaps somehow), 'out-lo' / 'out-hi' (no overlap, gap 0..3)"""
+    if how == 'in': return int(rng.integers(t0, t1 - n + 2))
+    if how == 'lo': return int(rng.integers(t0 - n + 1, t0))
+    if how == 'hi': return int(rng.integers(max(t1 - n + 2, t0 - n + 1), t1 + 1))
+    if how == 'any': return int(rng.integers(t0 - n + 1, t1 + 1))
+    if how == 'out-lo': return t0 - n - int(rng.integers(0, 4))
+    return t1 + 1 + int(rng.integers(0, 4))
+
+def _insert_case(rng):
+    """insert case drawn by category so that inside / clipped on each side / outside on each side are all frequent"""
+    S0, S1 = int(rng.integers(1, 9)), int(rng.integers(1, 9))
+    h, w = pick_shape(rng, 6, True)
+    te = ext_of((S0, S1), (0, 0))
+    cat = int(rng.integers(0, 12))
+    if cat <= 1:                                     # inside (incl. the identical-shape fast path)
+        h, w = min(h, S0), min(w, S1)
+        if rng.integers(0, 4) == 0: h, w = S0, S1
+        hr, hc = 'in', 'in'
+    elif cat <= 5:                                   # clipped on exactly the chosen side of that axis (maybe more on the other)
+        side = _SIDES[cat - 2]
+        if side in ('top', 'bottom'):
+            h = max(h, 2); hr = 'lo' if side == 'top' else 'hi'; hc = 'in' if w <= S1 and rng.integers(0, 2) else 'any'
+        else:
+            w = max(w, 2); hc = 'lo' if side == 'left' else 'hi'; hr = 'in' if h <= S0 and rng.integers(0, 2) else 'any'
+    elif cat == 6:                                   # corner / two-sided / larger than the target
+        if rng.integers(0, 2): h, w = h + S0, w + S1
+        hr, hc = 'any', 'any'
+    elif cat <= 8:                                   # wholly outside, on a chosen side; other axis anywhere near
+        side = _SIDES[int(rng.integers(0, 4))]
+        hr = {'top': 'out-lo', 'bottom': 'out-hi'}.get(side, 'any' if rng.integers(0, 3) else 'out-lo')
+        hc = {'left': 'out-lo', 'right': 'out-hi'}.get(side, 'any' if rng.integers(0, 3) else 'out-hi')
+    else:
+        hr = hc = None                               # uniform offsets
+    if hr is None:
+        off = [int(x) for x in rng.integers(-9, 10, 2)]
+    else:
+        rmin = _axis_pos(rng, h, te[0], te[1], hr); cmin = _axis_pos(rng, w, te[2], te[3], hc)
+        off = [rmin + h // 2, cmin + w // 2]
+    f = gi_field(rng, (h, w), off)
+    o = gi_field(rng, (S0, S1), (0, 0))
+    return {'kind': 'insert', 'field': f, 'out': o, 'weight': int(rng.integers(-2, 4)), 'intensity': bool(rng.integers(0, 2))}
+
+def _det_field(shape, off, k=0):
+    """deterministic Gaussian-integer data with all samples distinct and non-zero"""
+    n = shape[0] * shape[1]
+    return {'shape': list(shape), 'off': [int(off[0]), int(off[1])], 're': [1 + i + k for i in range(n)], 'im': [(-1) ** i * (2 + i) for i in range(n)]}
+
+def exhaustive_inserts():
+    """every insert with field shape <= 3x3, offset in [-4,4]^2 and target shape <= 4x4 (thorough tier)"""
+    out = []
+    n = 0
+    for h in range(1, 4):
+        for w in range(1, 4):
+            for S0 in range(1, 5):
+                for S1 in range(1, 5):
+                    o = _det_field((S0, S1), (0, 0), 7)
+                    for r in range(-4, 5):
+                        for c in range(-4, 5):
+                            n += 1
+                            out.append({'kind': 'insert', 'field': _det_field((h, w), (r, c)), 'out': o,
+                                        'weight': 1 + n % 3, 'intensity': n % 5 == 0, 'exh': True})
     return out
 
 def exhaustive_extents():
-    """all extent pairs with shapes <= 3 and offsets in [-3,3] (thorough tier)"""
+    """all extent pairs a = shape <= 5x5 at the origin, b = shape <= 5x5 at offset in [-6,6]^2, plus the same b against four
+    shifted copies of a for shapes <= 3 (thorough tier)"""
     out = []
-    shapes = [(a, b) for a in range(1, 4) for b in range(1, 4)]
-    offs = [(r, c) for r in range(-3, 4) for c in (-2, 0, 3)]
+    shapes = [(a, b) for a in range(1, 6) for b in range(1, 6)]
+    offs = [(r, c) for r in range(-6, 7) for c in range(-6, 7)]
     for sa in shapes:
-        for sb in shapes[::2]:
+        ea = list(ext_of(sa, (0, 0)))
+        for sb in shapes:
             for ob in offs:
-                out.append({'kind': 'extent', 'a': list(ext_of(sa, (0, 0))), 'b': list(ext_of(sb, ob)), 'sa': list(sa), 'oa': [0, 0]})
+                out.append({'kind': 'extent', 'a': ea, 'b': list(ext_of(sb, ob)), 'sa': list(sb), 'oa': list(ob), 'exh': True})
+    small = [(a, b) for a in range(1, 4) for b in range(1, 4)]
+    for oa in ((-5, 2), (3, -4), (-1, -1), (6, 6)):
+        for sa in small:
+            ea = list(ext_of(sa, oa))
+            for sb in small:
+                for ob in offs:
+                    out.append({'kind': 'extent', 'a': ea, 'b': list(ext_of(sb, ob)), 'sa': list(sa), 'oa': list(oa), 'exh': True})
     return out
 
 def signature(c):
     k = c['kind']
     if k == 'extent': return f"extent {c['a']} {c['b']}"
     if k == 'mul': return f"mul {c['a']['shape']}@{c['a']['off']} {c['b']['shape']}@{c['b']['off']}"
-    if k in ('merge', 'reduce'): return k + ' ' + ' '.join(f"{f['shape']}@{f['off']}" for f in c['fields'])
+    if k in ('merge', 'reduce', 'boundary'): return k + ' ' + ' '.join(f"{f['shape']}@{f['off']}" for f in c['fields'])
     return f"insert {c['field']['shape']}@{c['field']['off']} -> {c['out']['shape']} i={c['intensity']}"
 
 def _overlap(ea, eb):
@@ -95,7 +183,7 @@ def nontrivial(c):
     if k == 'extent': return c['a'] != c['b']
     if k == 'mul':
         return True
-    if k in ('merge', 'reduce'): return len(c['fields']) > 1
+    if k in ('merge', 'reduce', 'boundary'): return len(c['fields']) > 1
     f, o = c['field'], c['out']
     return not (f['shape'] == o['shape'] and f['off'] == [0, 0])
 
@@ -110,9 +198,23 @@ def tags(c):
     if k == 'insert':
         f, o = c['field'], c['out']
         e = ext_of(f['shape'], f['off']); te = ext_of(o['shape'], (0, 0))
-        if not _overlap(e, te): t.append('insert:outside')
-        elif e[0] >= te[0] and e[1] <= te[1] and e[2] >= te[2] and e[3] <= te[3]: t.append('insert:inside')
-        else: t.append('insert:clipped')
+        if not _overlap(e, te):
+            t.append('insert:outside')
+            if e[1] < te[0]: t.append('insert:outside-top')
+            if e[0] > te[1]: t.append('insert:outside-bottom')
+            if e[3] < te[2]: t.append('insert:outside-left')
+            if e[2] > te[3]: t.append('insert:outside-right')
+        elif e[0] >= te[0] and e[1] <= te[1] and e[2] >= te[2] and e[3] <= te[3]:
+            t.append('insert:inside')
+            if f['shape'] == o['shape'] and f['off'] == [0, 0]: t.append('insert:identical')
+        else:
+            t.append('insert:clipped')
+            sides = [nm for nm, cond in (('top', e[0] < te[0]), ('bottom', e[1] > te[1]), ('left', e[2] < te[2]), ('right', e[3] > te[3])) if cond]
+            t += ['insert:clip-' + nm for nm in sides]
+            if len(sides) > 1: t.append('insert:clip-multi')
+    if k == 'boundary':
+        es = [ext_of(f['shape'], f['off']) for f in c['fields']]
+        if max(e[1] for e in es) < 0 or max(e[3] for e in es) < 0: t.append('boundary:negative-side')
     if k == 'reduce': t.append(f"reduce:n={len(c['fields'])}")
     return t
 
@@ -138,6 +240,8 @@ def impl(c):
         if k == 'mul':
             r = _F(c['a']) * _F(c['b'])
             return {'fields': [field_json(r)] if r.size > 0 else []}
+        if k == 'boundary':
+            return {'extent': [int(x) for x in LF.boundary([_F(f) for f in c['fields']])]}
         if k == 'merge':
             r = LF._merge([_F(f) for f in c['fields']])
             return {'fields': [field_json(r)]}
@@ -160,6 +264,7 @@ def requests(c, io):
     if k == 'extent':
         return [{'op': 'extent.pair', 'a': c['a'], 'b': c['b']}, {'op': 'extent.array_extent', 'shape': c['sa'], 'shift': c['oa']}]
     if k == 'mul': return [{'op': 'field.mul', 'a': to_model_field(c['a']), 'b': to_model_field(c['b'])}]
+    if k == 'boundary': return [{'op': 'field.boundary', 'fields': [to_model_field(f) for f in c['fields']]}]
     if k == 'merge': return [{'op': 'field.merge', 'fields': [to_model_field(f) for f in c['fields']]}]
     if k == 'reduce': return [{'op': 'field.reduce', 'fields': [to_model_field(f) for f in c['fields']]}]
     return [{'op': 'field.insert', 'field': to_model_field(c['field']), 'out': c['out'], 'weight': c['weight'], 'intensity': c['intensity']}]
@@ -187,6 +292,8 @@ def compare(c, io, mo):
         if io['shape'] != m['shape']: return f"shape: impl {io['shape']} model {m['shape']}"
         if io['array_extent'] != mo[1]['extent']: return f"array_extent: impl {io['array_extent']} model {mo[1]['extent']}"
         return None
+    if k == 'boundary':
+        return None if io['extent'] == m['extent'] else f"boundary: impl {io['extent']} model {m['extent']}"
     if k in ('mul', 'merge', 'reduce'):
         d = _same_fields(c, io['fields'], m['fields'])
         if d: return d
@@ -225,6 +332,13 @@ def oracle(c, io):
         ca = io['center_a']
         if list(ext_of((a[1] - a[0] + 1, a[3] - a[2] + 1), ca)) != a: return f'centre {ca} does not rebuild the extent'
         return None
+    if k == 'boundary':
+        if 'exc' in io: return f"boundary raised {io['exc']}: {io.get('msg')}"
+        es = [ext_of(f['shape'], f['off']) for f in c['fields']]
+        px = [(r, q) for e in es for r in (e[0], e[1]) for q in (e[2], e[3])]
+        # bounding box of the occupied pixels; documented caveat (boundary_is_bbox_general): rmax/cmax never below 0
+        want = [min(p[0] for p in px), max(0, max(p[0] for p in px)), min(p[1] for p in px), max(0, max(p[1] for p in px))]
+        return None if io['extent'] == want else f"boundary {io['extent']} is not the bounding box {want} (max side raised to 0)"
     if k == 'mul':
         a, b = c['a'], c['b']
         if 'exc' in io: return f"product raised {io['exc']}: {io.get('msg')}"
